@@ -32,9 +32,9 @@ Definition step_good (f : req) (s : sk) : Prop :=
   end.
 
 Ltac unfold_all :=
-  unfold step_good, guard, g_inst_depot_dosed, g_inst_not_stale, g_seq_has_depot, g_seq_depot_dosed, g_zo_depot_dosed,
+  unfold step_good, guard, g_zo_depot_dosed,
     g_fo_no_chain, g_fo_seq_chain, g_fo_keeps_lag, g_no_param_clash, g_transit_no_lag, g_no_single_transit,
-    g_periph_le9, g_rem_periph_rates, g_keeps_bio, valid, step, step_transits, request_detected, others_unchanged,
+    g_rem_periph_rates, g_keeps_bio, valid, step, step_transits, request_detected, others_unchanged,
     refusal_documented, with_abs, with_tr, with_per, with_el, with_lagb, with_biob, canon_transits, canon_abs, s_depot,
     drop_depot_abs in *;
   cbn [s_abs s_transits s_periph s_elim s_lag s_mat s_popmdt s_krates s_elq s_bio] in *.
